@@ -72,6 +72,14 @@ fn run(args: &[String], tier: &str) -> i32 {
             println!("c06-race: {} rounds, {} overlapped, {} violations", a, b, v.violation_count());
             v.finish("race")
         }
+        "c06-inj" => {
+            common::quiet_panics();
+            let v = common::kf::Verdicts::load("C06");
+            let n: usize = args.get(2).and_then(|x| x.parse().ok()).unwrap_or(400);
+            let (a, b, sh) = c06::snapshot_injection(&v, common::seed(), n);
+            println!("c06-inj: {} cases, {} fired, {} shapes, {} violations", a, b, sh.len(), v.violation_count());
+            v.finish("inj")
+        }
         "c05-race" => {
             // only the free-running part of C05 (debugging aid): nunverif c05-race <attempts>
             common::quiet_panics();
